@@ -597,3 +597,154 @@ Section Chain.
         * eapply inl_nt; [exact Hino|]. apply inl_opt_body; eapply inl_mono; try apply Hext3; auto.
   Qed.
 End Chain.
+
+(* ---- the stated meaning of an expression: language over the user's symbols ----------------------- *)
+Fixpoint eden (e : expr) : list nat -> Prop :=
+  match e with
+  | Sym s => fun w => w = [s]
+  | Seq es => (fix go (l : list expr) : list nat -> Prop :=
+                 match l with
+                 | [] => fun w => w = []
+                 | x :: r => fun w => exists u v, w = u ++ v /\ eden x u /\ go r v
+                 end) es
+  | Alt es => (fix go (l : list expr) : list nat -> Prop :=
+                 match l with
+                 | [] => fun _ => False
+                 | x :: r => fun w => eden x w \/ go r w
+                 end) es
+  | Opt e => fun w => exists k, k <= 1 /\ pow nat (eden e) k w
+  | Star e => fun w => exists k, pow nat (eden e) k w
+  | Plus e => fun w => exists k, 1 <= k /\ pow nat (eden e) k w
+  | Rep e mn mx => fun w => exists k, Z.to_nat mn <= k <= Z.to_nat mx /\ pow nat (eden e) k w
+  end.
+
+Lemma eden_Seq_cons x r w : eden (Seq (x :: r)) w <-> exists u v, w = u ++ v /\ eden x u /\ eden (Seq r) v.
+Proof. reflexivity. Qed.
+Lemma eden_Alt_cons x r w : eden (Alt (x :: r)) w <-> eden x w \/ eden (Alt r) w.
+Proof. reflexivity. Qed.
+
+Fixpoint ebnf_list (l : list expr) (st : state) : res (list bt * state) :=
+  match l with
+  | [] => Ok ([], st)
+  | x :: r => rbind (ebnf x st) (fun p => rbind (ebnf_list r (snd p)) (fun q => Ok (fst p :: fst q, snd q)))
+  end.
+
+Lemma ebnf_Seq es st : ebnf (Seq es) st = rbind (ebnf_list es st) (fun q => Ok (Sq (fst q), snd q)).
+Proof. reflexivity. Qed.
+Lemma ebnf_Alt es st : ebnf (Alt es) st = rbind (ebnf_list es st) (fun q => Ok (Al (fst q), snd q)).
+Proof. reflexivity. Qed.
+
+Lemma rbind_ok {X Y} (r : res X) (f : X -> res Y) y : rbind r f = Ok y -> exists x, r = Ok x /\ f x = Ok y.
+Proof. destruct r; simpl; try discriminate. eauto. Qed.
+
+Definition Gok (G : grammar) (D : list (nat * bt)) : Prop :=
+  (forall r h, In r G -> lhs r = S h -> exists t, In (h, t) D /\ In (rhs r) (alts t)) /\
+  (forall h t a, In (h, t) D -> In a (alts t) -> In (mkRule (S h) a) G) /\
+  (forall h t t', In (h, t) D -> In (h, t') D -> t = t').
+
+(* what holds for a compiled sub-expression *)
+Definition good (e : expr) (st : state) (t : bt) (st' : state) : Prop :=
+  wf st' /\ ext st st' /\ top_bound t (ctr st') /\
+  forall G D, Gok G D -> incl (new_rules st') D -> forall w, lang G t w <-> eden e w.
+
+Lemma pow_le1 (A : list nat -> Prop) w : (exists k, k <= 1 /\ pow nat A k w) <-> w = [] \/ A w.
+Proof.
+  split.
+  - intros (k & Hk & Hp). destruct k as [|[|k]]; [| |lia].
+    + inversion Hp; auto.
+    + inversion Hp as [|k0 u v Hu Hv]; subst. inversion Hv; subst. rewrite app_nil_r. auto.
+  - intros [->|H]; [exists 0; split; [lia|constructor] | exists 1; split; [lia|apply pow_1; auto]].
+Qed.
+
+Lemma den_Atom (A : list nat -> Prop) w : den nat A Atom w <-> A w.
+Proof. split; intros H; [inversion H; auto | constructor; auto]. Qed.
+
+Lemma ebnf_good e : forall st t st', wf st -> ebnf e st = Ok (t, st') -> good e st t st'.
+Proof.
+  induction e as [s|l IH|l IH|e IH|e IH|e IH|e mn mx IH] using expr_ind'; intros st t st' W He.
+  - (* Sym *)
+    simpl in He. inversion He; subst. split; auto. split; [apply ext_refl|].
+    split; [intros h Heq; discriminate|]. intros G D _ _ w. apply lang_T.
+  - (* Seq *)
+    rewrite ebnf_Seq in He. apply rbind_ok in He. destruct He as ([ts st1] & Hl & He). simpl in He.
+    inversion He; subst. clear He.
+    assert (Hgen : wf st' /\ ext st st' /\
+              forall G D, Gok G D -> incl (new_rules st') D -> forall w, lang G (Sq ts) w <-> eden (Seq l) w).
+    { revert st ts st' W Hl. induction IH as [|x r Hx _ IHr]; intros st ts st' W Hl.
+      - simpl in Hl. inversion Hl; subst. split; auto. split; [apply ext_refl|].
+        intros G D _ _ w. apply lang_Sq_nil.
+      - simpl in Hl. apply rbind_ok in Hl. destruct Hl as ([t1 st1] & H1 & Hl).
+        apply rbind_ok in Hl. destruct Hl as ([ts2 st2] & H2 & Hl). simpl in Hl. inversion Hl; subst.
+        destruct (Hx _ _ _ W H1) as (W1 & E1 & _ & S1).
+        destruct (IHr _ _ _ W1 H2) as (W2 & E2 & S2).
+        split; auto. split; [eapply ext_trans; eauto|]. intros G D HG Hi w.
+        rewrite lang_Sq_cons, eden_Seq_cons. split.
+        + intros (u & v & -> & Hu & Hv). exists u, v. split; auto. split.
+          * apply (S1 G D HG); auto. eapply incl_tran; [apply E2 | exact Hi].
+          * apply (S2 G D HG); auto.
+        + intros (u & v & -> & Hu & Hv). exists u, v. split; auto. split.
+          * apply (S1 G D HG); auto. eapply incl_tran; [apply E2 | exact Hi].
+          * apply (S2 G D HG); auto. }
+    destruct Hgen as (W' & E' & S'). split; auto. split; auto. split; auto. intros h Heq; discriminate.
+  - (* Alt *)
+    rewrite ebnf_Alt in He. apply rbind_ok in He. destruct He as ([ts st1] & Hl & He). simpl in He.
+    inversion He; subst. clear He.
+    assert (Hgen : wf st' /\ ext st st' /\
+              forall G D, Gok G D -> incl (new_rules st') D -> forall w, lang G (Al ts) w <-> eden (Alt l) w).
+    { revert st ts st' W Hl. induction IH as [|x r Hx _ IHr]; intros st ts st' W Hl.
+      - simpl in Hl. inversion Hl; subst. split; auto. split; [apply ext_refl|].
+        intros G D _ _ w. split; [intros H; exfalso; eapply lang_Al_nil; eauto | intros []].
+      - simpl in Hl. apply rbind_ok in Hl. destruct Hl as ([t1 st1] & H1 & Hl).
+        apply rbind_ok in Hl. destruct Hl as ([ts2 st2] & H2 & Hl). simpl in Hl. inversion Hl; subst.
+        destruct (Hx _ _ _ W H1) as (W1 & E1 & _ & S1).
+        destruct (IHr _ _ _ W1 H2) as (W2 & E2 & S2).
+        split; auto. split; [eapply ext_trans; eauto|]. intros G D HG Hi w.
+        rewrite lang_Al_cons, eden_Alt_cons.
+        assert (Hi1 : incl (new_rules st1) D) by (eapply incl_tran; [apply E2 | exact Hi]).
+        rewrite (S1 G D HG Hi1 w), (S2 G D HG Hi w). tauto. }
+    destruct Hgen as (W' & E' & S'). split; auto. split; auto. split; auto. intros h Heq; discriminate.
+  - (* Opt *)
+    simpl in He. apply rbind_ok in He. destruct He as ([x st1] & H1 & He). simpl in He. inversion He; subst.
+    destruct (IH _ _ _ W H1) as (W1 & E1 & _ & S1). split; auto. split; auto.
+    split; [intros h Heq; discriminate|]. intros G D HG Hi w.
+    rewrite lang_Al_cons, lang_Al_cons, lang_Sq_nil. cbn [eden]. rewrite pow_le1, (S1 G D HG Hi w).
+    split; [intros [H|[H|H]]; auto; exfalso; eapply lang_Al_nil; eauto | intros [H|H]; auto].
+  - (* Star *)
+    simpl in He. apply rbind_ok in He. destruct He as ([x st1] & H1 & He). simpl in He.
+    destruct (add_recurse x st1) as [t2 st2] eqn:E2. simpl in He. inversion He; subst.
+    destruct (IH _ _ _ W H1) as (W1 & E1 & _ & S1).
+    destruct (add_recurse_spec _ _ _ _ W1 E2) as (h & -> & Hin & W2 & Ex2 & Hlt).
+    split; auto. split; [eapply ext_trans; eauto|]. split; [intros h' Heq; discriminate|].
+    intros G D (HG1 & HG2 & HD) Hi w.
+    assert (Hx : forall w, lang G x w <-> den nat (eden e) Atom w).
+    { intros w'. rewrite den_Atom. apply (S1 G D (conj HG1 (conj HG2 HD))). eapply incl_tran; [apply Ex2 | exact Hi]. }
+    rewrite lang_Al_cons, lang_Al_cons, lang_Sq_nil, lang_Sy.
+    rewrite (rec_sound G D HG1 HG2 HD (eden e) h x Atom (Hi _ Hin) Hx w).
+    rewrite den_cnt. cbn [eden]. split.
+    + intros [(k & Hk & Hp)|[->|H]]; [eauto | exists 0; constructor | exfalso; eapply lang_Al_nil; eauto].
+    + intros (k & Hp). destruct k as [|k]; [inversion Hp; auto|].
+      left. exists (S k). split; auto. apply (rec_count Atom exact_atom). lia.
+  - (* Plus *)
+    simpl in He. apply rbind_ok in He. destruct He as ([x st1] & H1 & He). simpl in He.
+    destruct (add_recurse x st1) as [t2 st2] eqn:E2. inversion He; subst.
+    destruct (IH _ _ _ W H1) as (W1 & E1 & _ & S1).
+    destruct (add_recurse_spec _ _ _ _ W1 E2) as (h & -> & Hin & W2 & Ex2 & Hlt).
+    split; auto. split; [eapply ext_trans; eauto|]. split; [intros h' Heq; inversion Heq; subst; auto|].
+    intros G D (HG1 & HG2 & HD) Hi w.
+    assert (Hx : forall w, lang G x w <-> den nat (eden e) Atom w).
+    { intros w'. rewrite den_Atom. apply (S1 G D (conj HG1 (conj HG2 HD))). eapply incl_tran; [apply Ex2 | exact Hi]. }
+    rewrite lang_Sy, (rec_sound G D HG1 HG2 HD (eden e) h x Atom (Hi _ Hin) Hx w), den_cnt. cbn [eden].
+    split; intros (k & Hk & Hp); exists k; split; auto; apply (rec_count Atom exact_atom); auto.
+  - (* Rep *)
+    simpl in He. destruct ((mx <? mn) || (mn <? 0))%Z eqn:Erange; [discriminate|].
+    apply orb_false_elim in Erange. destruct Erange as [R1 R2]. apply Z.ltb_ge in R1, R2.
+    apply rbind_ok in He. destruct He as ([x st1] & H1 & He). simpl in He.
+    destruct (IH _ _ _ W H1) as (W1 & E1 & B1 & S1).
+    destruct (generate_repeats_language nat (eden e) mn mx (conj R2 R1)) as (r & Hr & Hlang).
+    destruct (gen_repeats_spec x mn mx st1 t st' r W1 B1 He Hr) as (W2 & E2 & B2 & Hinl).
+    split; auto. split; [eapply ext_trans; eauto|]. split; auto.
+    intros G D (HG1 & HG2 & HD) Hi w. cbn [eden]. rewrite <- Hlang.
+    apply (inl_sound G D HG1 HG2 HD x (eden e)).
+    + intros w'. apply (S1 G D (conj HG1 (conj HG2 HD))). eapply incl_tran; [apply E2 | exact Hi].
+    + eapply inl_mono; [exact Hi | exact Hinl].
+Qed.
